@@ -1,5 +1,6 @@
 import BlochVerif.Eval.Model
 import BlochVerif.Obj.Model
+import BlochVerif.Sem.Decls
 /-!
 # C10 — declaration order
 
@@ -88,5 +89,78 @@ theorem class_layout_order_independent (decls decls' : List ClsDecl) (hp : decls
 
 /-- non-vacuity: a derived class written before its base gets the base's fields first -/
 example : layoutOf [⟨"D", some "B", ["y"]⟩, ⟨"B", none, ["x"]⟩] 3 "D" = [("B", "x"), ("D", "y")] := by decide
+
+/-! ## acceptance: the analyser's decision about the declarations is a function of their set -/
+open BlochVerif.Decls
+
+theorem all_perm {α : Type} {l l' : List α} (hp : l.Perm l') (f : α → Bool) : l.all f = l'.all f := by
+  induction hp with
+  | nil => rfl
+  | cons x _ ih => simp only [List.all_cons, ih]
+  | swap x y l => simp only [List.all_cons]; cases f x <;> cases f y <;> rfl
+  | trans _ _ ih1 ih2 => rw [ih1, ih2]
+
+theorem any_perm {α : Type} {l l' : List α} (hp : l.Perm l') (f : α → Bool) : l.any f = l'.any f := by
+  induction hp with
+  | nil => rfl
+  | cons x _ ih => simp only [List.any_cons, ih]
+  | swap x y l => simp only [List.any_cons]; cases f x <;> cases f y <;> rfl
+  | trans _ _ ih1 ih2 => rw [ih1, ih2]
+
+theorem chainOK_perm (cs cs' : List Cls) (hp : cs.Perm cs') (hnd : (cs.map (·.name)).Nodup) (fuel : Nat) (n : String) :
+    chainOK cs fuel n = chainOK cs' fuel n := by
+  induction fuel generalizing n with
+  | zero => rfl
+  | succ f ih =>
+    simp only [chainOK]
+    rw [find_key_perm (·.name) hp hnd n]
+    split
+    · rfl
+    · cases cs'.find? (fun c => c.name == n) with
+      | none => rfl
+      | some c => exact ih c.baseName
+
+theorem bodyOK_perm (p p' : Prog) (hc : p.classes.Perm p'.classes) (hf : p.functions.Perm p'.functions) (b : Body) :
+    bodyOK p b = bodyOK p' b := by
+  unfold bodyOK
+  have h1 : (fun (c : String × Nat) => p.functions.any (fun g => g.name == c.1 && g.arity == c.2)) =
+      (fun c => p'.functions.any (fun g => g.name == c.1 && g.arity == c.2)) := by
+    funext c; exact any_perm hf _
+  have h2 : (fun (n : String) => n == "Object" || p.classes.any (fun c => c.name == n)) =
+      (fun n => n == "Object" || p'.classes.any (fun c => c.name == n)) := by
+    funext n; rw [any_perm hc]
+  rw [h1, h2]
+
+/-- **C10, acceptance.**  Whether the analyser accepts the declarations — no duplicate class or function, every
+base declared, no inheritance cycle, every call naming a declared function of that arity, every `new` naming a
+declared class — does not depend on the order in which classes and functions are written. -/
+theorem acceptance_order_independent (p p' : Prog) (hc : p.classes.Perm p'.classes)
+    (hf : p.functions.Perm p'.functions) : accept p = accept p' := by
+  unfold accept
+  have hn1 : decide ((p.classes.map (·.name)).Nodup) = decide ((p'.classes.map (·.name)).Nodup) :=
+    decide_eq_decide.mpr (hc.map _).nodup_iff
+  have hn2 : decide ((p.functions.map (·.name)).Nodup) = decide ((p'.functions.map (·.name)).Nodup) :=
+    decide_eq_decide.mpr (hf.map _).nodup_iff
+  have hb : (fun (c : Cls) => bodyOK p c.body) = (fun c => bodyOK p' c.body) := by
+    funext c; exact bodyOK_perm p p' hc hf c.body
+  have hb2 : (fun (f : Fn) => bodyOK p f.body) = (fun f => bodyOK p' f.body) := by
+    funext f; exact bodyOK_perm p p' hc hf f.body
+  rw [← hn1, ← hn2, hb, hb2, ← all_perm hc, ← all_perm hf, ← hc.length_eq]
+  by_cases hnd : (p.classes.map (·.name)).Nodup
+  · have hch : (fun (c : Cls) => chainOK p.classes (p.classes.length + 1) c.baseName) =
+        (fun c => chainOK p'.classes (p.classes.length + 1) c.baseName) := by
+      funext c; exact chainOK_perm _ _ hc hnd _ _
+    rw [hch, ← all_perm hc]
+  · simp [hnd]
+
+/-- non-vacuity: accepted with a derived class and a caller written first; rejected for a cycle, a missing base,
+a wrong arity, in either order -/
+def okProg : Prog := { classes := [⟨"D", some "B", ⟨[("f", 1)], ["B"]⟩⟩, ⟨"B", none, {}⟩],
+                       functions := [⟨"main", 0, ⟨[("f", 1)], ["D"]⟩⟩, ⟨"f", 1, {}⟩] }
+example : accept okProg = true := by decide
+example : accept { okProg with classes := okProg.classes.reverse } = true := by decide
+example : accept { classes := [⟨"A", some "B", {}⟩, ⟨"B", some "A", {}⟩] } = false := by decide
+example : accept { classes := [⟨"A", some "Z", {}⟩] } = false := by decide
+example : accept { functions := [⟨"main", 0, ⟨[("f", 2)], []⟩⟩, ⟨"f", 1, {}⟩] } = false := by decide
 
 end BlochVerif.Props.C10
